@@ -20,7 +20,10 @@ RULE = ("each case is one history of 1-10 calls on a fresh cache: raw encoding.d
         "valid streams under the main coding (raw deflate too), and truncated / trailing-junk / doubled / bit-flipped "
         "streams of all codecs; 35% of operands are results of earlier steps, so the one-entry cache is hit with the same "
         "bytes under the same and under different codings (hits are tagged). Thorough adds every 3-call history over 15 "
-        "decode/encode calls around one body. Non-trivial = at least two cache-relevant calls and one cached coding; "
+        "decode/encode calls around one body. 25% of the cases are lenient-decode scenarios: a body of a cached coding "
+        "malformed by offset class (sync-/full-flushed without final block, trailer missing / halved / one byte short, header only, "
+        "mid-data, any offset, trailing data, doubled, raw sync-flushed / truncated) is read on one message or decoded, then its "
+        "content is assigned to ANOTHER message / Message.encode / encoding.encode under the same coding. Non-trivial = at least two cache-relevant calls and one cached coding; "
         "distinct by canonical JSON.")
 TRUSTED = ["Coq 8.16.1 kernel (coqc), vm_compute for case evaluation",
            "harness/props/C31.py generator, runner, table of library results and comparison glue (Corr/C31.v)",
@@ -298,12 +301,79 @@ def _all_cases_small():
     return out
 
 
+MALFORMED_CLASSES = ["sync-flushed", "full-flushed", "missing-trailer", "half-trailer", "one-short", "header-only",
+                     "mid-data", "trailing-data", "doubled", "raw-sync-flushed", "raw-truncated", "cut-at"]
+
+
+def _malformed(rng, name, b, cls):
+    """a body that is NOT a complete, exact stream of coding name for content b (by offset class)."""
+    L = _lib()
+    n = name.lower()
+    if n in ("gzip", "deflate", "deflateraw"):
+        wb = 31 if n == "gzip" else 15
+        trailer = 8 if n == "gzip" else 4
+        hdr = 10 if n == "gzip" else 2
+        full = _valid_stream(n, b)
+        if cls in ("sync-flushed", "full-flushed", "raw-sync-flushed"):
+            c = zlib.compressobj(rng.choice([1, 6, 9]), zlib.DEFLATED, -15 if cls == "raw-sync-flushed" else wb)
+            return c.compress(b) + c.flush(zlib.Z_FULL_FLUSH if cls == "full-flushed" else zlib.Z_SYNC_FLUSH)
+        if cls == "raw-truncated":
+            raw = full[hdr:-trailer]
+            return raw[:max(1, len(raw) - rng.randint(1, 3))]
+    else:
+        full = _valid_stream(n, b)
+        trailer, hdr = 4, min(4, len(full))
+    if cls == "missing-trailer": return full[:-trailer]
+    if cls == "half-trailer": return full[:-(trailer // 2)]
+    if cls == "one-short": return full[:-1]
+    if cls == "header-only": return full[:hdr]
+    if cls == "mid-data": return full[:max(1, (hdr + len(full) - trailer) // 2)]
+    if cls == "trailing-data": return full + rng.choice([b"\x00", b"junk", b"\r\n0\r\n\r\n"])
+    if cls == "doubled": return full + full
+    return full[:rng.randint(1, max(1, len(full) - 1))]          # cut-at: any offset
+
+
+def _gen_lenient_scenario(rng):
+    """a decode of a malformed / truncated body (message read or raw call), then -- mostly with no other cached call in
+    between -- the decoded content is encoded again: on another message, by Message.encode, or by encoding.encode."""
+    name = rng.choice(CACHED)
+    shown = _variant(rng, name)
+    b = rng.choice([p for p in PLAIN if p]) if rng.chance(0.6) else rng.bytes(rng.randint(4, 40), b"ab{}\"\x00")
+    cls = rng.choice(MALFORMED_CLASSES)
+    bad_stream = _malformed(rng, name, b, cls)
+    steps = []
+    if rng.chance(0.25):                       # something unrelated in the cache first
+        steps.append({"op": "enc", "body": {"lit": hx(rng.choice(PLAIN))}, "name": rng.choice(CACHED), "errors": "strict"})
+    if rng.chance(0.6):
+        steps.append({"op": "edit", "slot": 0, "ce": shown, "raw": {"lit": hx(bad_stream)}})
+        steps.append({"op": rng.choice(["get", "get", "mdec"]), "slot": 0, "strict": rng.chance(0.5)})
+    else:
+        steps.append({"op": "dec", "body": {"lit": hx(bad_stream)}, "name": shown, "errors": "strict"})
+    src = len(steps) - 1
+    if rng.chance(0.15):                       # an intervening call that may or may not evict the entry
+        steps.append(rng.choice([{"op": "get", "slot": 1, "strict": True},
+                                 {"op": "enc", "body": {"lit": hx(b)}, "name": "identity", "errors": "strict"},
+                                 {"op": "dec", "body": {"lit": hx(bad_stream)}, "name": rng.choice(CACHED), "errors": "strict"}]))
+    content = {"res": src, "alt": hx(b)} if rng.chance(0.7) else {"lit": hx(b)}
+    k = rng.weighted([(5, "set"), (2, "menc"), (3, "enc")])
+    if k == "set":
+        steps.append({"op": "edit", "slot": 1, "ce": _variant(rng, name)})
+        steps.append({"op": "set", "slot": 1, "body": content})
+        steps.append({"op": "get", "slot": 1, "strict": True})
+    elif k == "menc":
+        steps.append({"op": "edit", "slot": 1, "ce": None, "raw": content})
+        steps.append({"op": "menc", "slot": 1, "name": _variant(rng, name)})
+    else:
+        steps.append({"op": "enc", "body": content, "name": _variant(rng, name), "errors": "strict"})
+    return {"steps": steps, "scenario": f"{name}:{cls}"}
+
+
 def gen(rng, n, tier):
     out = []
     if tier == "thorough":
         out.extend(_all_cases_small())
     for _ in range(n):
-        out.append(_gen_case(rng))
+        out.append(_gen_lenient_scenario(rng) if rng.chance(0.25) else _gen_case(rng))
     return out
 
 
@@ -561,6 +631,33 @@ def _is_str_codec_dec(name, x):
     return False
 
 
+def _replay_key(name, stream, content):
+    """Which family a replayed stream that a strict recipient rejects belongs to. Two families are recorded findings:
+    gzip bodies that zlib header auto-detection decodes to the content although they are truncated / followed by more data
+    / in zlib format, and deflate bodies that are a COMPLETE zlib or raw deflate stream followed by extra bytes.
+    Everything else (e.g. an unterminated deflate stream) gets its own key."""
+    n = name.lower()
+    try:
+        if n == "gzip":
+            d = zlib.decompressobj(47)
+            if d.decompress(stream) + d.flush() == content:
+                return "cache-replays-lenient-gzip-stream"
+        if n in ("deflate", "deflateraw"):
+            for wb in (15, -15):
+                try:
+                    d = zlib.decompressobj(wb)
+                    out = d.decompress(stream) + d.flush()
+                except zlib.error:
+                    continue
+                if d.eof and d.unused_data and out == content:
+                    return "cache-replays-deflate-trailing-data"
+                if not d.eof and out == content:
+                    return "cache-replays-unterminated-deflate-stream"
+    except zlib.error:
+        pass
+    return "cache-replays-undecodable-stream"
+
+
 def oracle(case, obs):
     v = []
     seen = set()
@@ -582,7 +679,7 @@ def oracle(case, obs):
         if ref_decode(name, stream) == content:
             return
         if stream != fresh_stream and replayed(name, stream, content):
-            bad("cache-replays-nonstrict-stream",
+            bad(_replay_key(name, stream, content),
                 f"step {i}: {what} under {name!r} produced {stream.hex()} (replayed from an earlier lenient decode); a strict "
                 f"decoder does not return {content.hex()}; with an empty cache the result is {None if fresh_stream is None else fresh_stream.hex()}")
         else:
@@ -777,6 +874,9 @@ def classify(case, obs):
                 tags.add("te-present")
             if o["before"]["ce"] != o["after"]["ce"] and o["after"]["ce"] is None:
                 tags.add("header-removed")
+    if "scenario" in case:
+        tags.add("scenario:" + case["scenario"].split(":")[1])
+        tags.add("scenario-coding:" + case["scenario"].split(":")[0])
     n = _cache_calls(case)
     tags.add("calls:" + ("1" if n <= 1 else "2-4" if n <= 4 else "5-10"))
     tags.add("table:" + ("0" if not obs["table"] else "1-5" if len(obs["table"]) <= 5 else "6+"))
